@@ -299,14 +299,16 @@ func genWorldWith(t *rapid.T, s *schema, o *WorldOpts) *WorldDef {
 	return wd
 }
 
-// genSchedule draws a schedule: mostly zeros with a few switches.
+// genSchedule draws a schedule (see Sched.pick for the encoding): switches
+// separated by gaps from a heavy-tailed distribution, so that they land early
+// and deep inside long operations alike.
 func genSchedule(t *rapid.T, maxLen int) []int {
 	n := rapid.IntRange(0, maxLen).Draw(t, "schedlen")
 	out := make([]int, n)
 	for i := range out {
-		if rapid.IntRange(0, 2).Draw(t, "sw") == 0 {
-			out[i] = rapid.IntRange(1, 4).Draw(t, "to")
-		}
+		gap := rapid.SampledFrom([]int{0, 0, 0, 1, 1, 2, 3, 5, 8, 13, 30, 100, 400, 2000}).Draw(t, "gap")
+		to := rapid.IntRange(0, 4).Draw(t, "to")
+		out[i] = gap*5 + to
 	}
 	return out
 }
